@@ -233,7 +233,7 @@ const (
 
 var targetNames = []string{"any", "map[string]any", "[]any", "RawMessage", "string", "float64", "int", "struct", "map[string]int", "[]int", "[]*Flaky", "map[string]*Flaky", "map[string]struct", "*struct", "map[string]FlakyText", "static type", "map[int]string", "[3]any", "[]byte", "uint64", "**int", "RedirectMarshaler", "TrustMarshaler"}
 
-var tagNames = []string{"a", "b", "c", "foo", "A", "Foo", "", "-", "bar", "a/b", "é"}
+var tagNames = []string{"a", "b", "c", "foo", "A", "Foo", "", "-", "bar", "a/b", "é", "a_b", "created_at", "kind", "sk8"}
 
 var structCache = map[uint64]reflect.Type{}
 
@@ -283,7 +283,19 @@ func genStruct(r *gen.R, depth int) (t reflect.Type) {
 			}
 			f.Tag = reflect.StructTag(`json:` + strconv.Quote(tag))
 		}
-		switch x := r.Intn(16); {
+		switch x := r.Intn(22); {
+		case x == 16:
+			f.Type = reflect.TypeOf([2]int{})
+		case x == 17:
+			f.Type = reflect.TypeOf([1]string{})
+		case x == 18:
+			f.Type = reflect.TypeOf([]byte(nil))
+		case x == 19:
+			f.Type = reflect.TypeOf(map[int]string(nil))
+		case x == 20:
+			f.Type = reflect.TypeOf(uint8(0))
+		case x == 21:
+			f.Type = reflect.TypeOf([0]bool{})
 		case x == 0:
 			f.Type = reflect.TypeOf(false)
 		case x == 1:
